@@ -4,6 +4,7 @@
 # Leaves the worktree clean.
 wt=$1; m=$2
 cd "$wt" || exit 2
+export CELLPYLIB_REPO="$wt"   # the demos read the tree under test from this variable
 git checkout -q -- . ; 
 /venv/bin/python "$m/demo.py" >/tmp/vs_demo0_$$.log 2>&1; d0=$?
 git apply "$m/patch.diff" || { echo "PATCH DOES NOT APPLY"; exit 3; }
